@@ -10,7 +10,7 @@ PROPERTY_ID = "C13"
 LEVEL = "exploration"
 RULE = (
     "generated positive training series on an arbitrary integer index, a second stretch whose "
-    "start lies anywhere from inside the training range to 20 steps after it (offsets that are "
+    "start lies anywhere from 14 steps before the training range to 20 steps after it (offsets that are "
     "not multiples of the period included), optional update() calls in between, and every "
     "Box-Cox / log / detrend / (conditional) deseasonalise / tabular-adaptor / optional-passthrough / "
     "transformed-target-pipeline configuration. Oracles: inverse(transform(z2)) == z2 where finite, "
